@@ -70,94 +70,154 @@ theorem sync_sublist {α} (dirs : List α) (m : List Nat) (h : m.Sublist (List.r
 
 /-! ## the walk state only grows -/
 
-/-- `s ≤ t`: same `Path` exceptions, more (or equal) `str` exceptions and relative entries -/
-def St.le (s t : St) : Prop :=
-  s.exceptPath = t.exceptPath ∧ s.exceptStr ⊆ t.exceptStr ∧ s.rel ⊆ t.rel
+/-- `s ≤ t`: more (or equal) `except_paths` members and relative entries -/
+def St.le (s t : St) : Prop := s.exc ⊆ t.exc ∧ s.rel ⊆ t.rel
 
-theorem St.le_refl (s : St) : s.le s := ⟨rfl, fun _ h => h, fun _ h => h⟩
+theorem St.le_refl (s : St) : s.le s := ⟨fun _ h => h, fun _ h => h⟩
 
 theorem St.le_trans {s t u : St} (h1 : s.le t) (h2 : t.le u) : s.le u :=
-  ⟨h1.1.trans h2.1, fun _ h => h2.2.1 (h1.2.1 h), fun _ h => h2.2.2 (h1.2.2 h)⟩
+  ⟨fun _ h => h2.1 (h1.1 h), fun _ h => h2.2 (h1.2 h)⟩
 
-theorem processFiles_mono (cfg : Cfg) (root : Str) (anc : List (Str × Str)) (st : St) (fs : List FileEnt) :
-    st.le (processFiles cfg root anc st fs).2 := by
+theorem readGitignores_mono (cfg : Cfg) (root : Str) (st : St) (fs : List FileEnt) :
+    st.le (readGitignores cfg root st fs) := by
   induction fs generalizing st with
   | nil => exact St.le_refl _
   | cons f fs ih =>
-    simp only [processFiles]
-    refine St.le_trans ?_ (ih _)
+    simp only [readGitignores]
     split
-    · exact ⟨rfl, List.subset_append_left _ _, List.subset_append_left _ _⟩
-    · exact St.le_refl _
+    · exact St.le_trans ⟨List.subset_append_left _ _, List.subset_append_left _ _⟩ (ih _)
+    · exact ih _
 
-theorem walkForest_mono (cfg : Cfg) (root : Str) (anc : List (Str × Str)) (frozen st : St) (F : Forest) :
+/-- reading the same listing from a bigger state gives a bigger state -/
+theorem readGitignores_le_le (cfg : Cfg) (root : Str) {s t : St} (h : s.le t) (fs : List FileEnt) :
+    (readGitignores cfg root s fs).le (readGitignores cfg root t fs) := by
+  induction fs generalizing s t with
+  | nil => exact h
+  | cons f fs ih =>
+    simp only [readGitignores]
+    split
+    · apply ih
+      exact ⟨List.append_subset.mpr ⟨fun _ hx => List.mem_append_left _ (h.1 hx), List.subset_append_right _ _⟩,
+             List.append_subset.mpr ⟨fun _ hx => List.mem_append_left _ (h.2 hx), List.subset_append_right _ _⟩⟩
+    · exact ih h
+
+/-- every entry of a `.gitignore` of the listing is in the state after the first loop -/
+theorem gitignore_read (cfg : Cfg) (root : Str) (st : St) (files : List FileEnt)
+    (content : Str) (h : (⟨cfg.gitignoreName, content⟩ : FileEnt) ∈ files) :
+    (gitignoredPaths cfg root content).1 ⊆ (readGitignores cfg root st files).exc ∧
+    (gitignoredPaths cfg root content).2 ⊆ (readGitignores cfg root st files).rel := by
+  induction files generalizing st with
+  | nil => cases h
+  | cons f fs ih =>
+    simp only [readGitignores]
+    rcases List.mem_cons.mp h with h | h
+    · subst h
+      simp only [if_true]
+      have hm := readGitignores_mono cfg root
+        ({ exc := st.exc ++ (gitignoredPaths cfg root content).1,
+           rel := st.rel ++ (gitignoredPaths cfg root content).2 } : St) fs
+      exact ⟨fun x hx => hm.1 (List.mem_append_right _ hx), fun x hx => hm.2 (List.mem_append_right _ hx)⟩
+    · split
+      · exact ih _ h
+      · exact ih _ h
+
+/-- conversely: what the first loop adds comes from a `.gitignore` of the listing -/
+theorem readGitignores_prov (cfg : Cfg) (root : Str) (st : St) (files : List FileEnt) :
+    (∀ a ∈ (readGitignores cfg root st files).exc, a ∈ st.exc ∨
+      ∃ content, (⟨cfg.gitignoreName, content⟩ : FileEnt) ∈ files ∧ a ∈ (gitignoredPaths cfg root content).1) ∧
+    (∀ e ∈ (readGitignores cfg root st files).rel, e ∈ st.rel ∨
+      ∃ content, (⟨cfg.gitignoreName, content⟩ : FileEnt) ∈ files ∧ e ∈ (gitignoredPaths cfg root content).2) := by
+  induction files generalizing st with
+  | nil => exact ⟨fun a h => .inl h, fun e h => .inl h⟩
+  | cons f fs ih =>
+    simp only [readGitignores]
+    split
+    · rename_i hname
+      have hf : f = ⟨cfg.gitignoreName, f.content⟩ := by cases f; simp_all
+      obtain ⟨h1, h2⟩ := ih ({ exc := st.exc ++ (gitignoredPaths cfg root f.content).1,
+                               rel := st.rel ++ (gitignoredPaths cfg root f.content).2 } : St)
+      refine ⟨fun a ha => ?_, fun e he => ?_⟩
+      · rcases h1 a ha with h | ⟨c, hc, hm⟩
+        · rcases List.mem_append.mp h with h | h
+          · exact .inl h
+          · exact .inr ⟨f.content, by rw [← hf]; exact List.mem_cons_self, h⟩
+        · exact .inr ⟨c, List.mem_cons_of_mem _ hc, hm⟩
+      · rcases h2 e he with h | ⟨c, hc, hm⟩
+        · rcases List.mem_append.mp h with h | h
+          · exact .inl h
+          · exact .inr ⟨f.content, by rw [← hf]; exact List.mem_cons_self, h⟩
+        · exact .inr ⟨c, List.mem_cons_of_mem _ hc, hm⟩
+    · obtain ⟨h1, h2⟩ := ih st
+      refine ⟨fun a ha => ?_, fun e he => ?_⟩
+      · rcases h1 a ha with h | ⟨c, hc, hm⟩
+        · exact .inl h
+        · exact .inr ⟨c, List.mem_cons_of_mem _ hc, hm⟩
+      · rcases h2 e he with h | ⟨c, hc, hm⟩
+        · exact .inl h
+        · exact .inr ⟨c, List.mem_cons_of_mem _ hc, hm⟩
+
+theorem walkForest_mono (cfg : Cfg) (root : Str) (anc : List Anc) (frozen st : St) (F : Forest) :
     st.le (walkForest cfg root anc frozen st F).2 := by
   induction F generalizing root anc frozen st with
   | nil => exact St.le_refl _
   | cons name files ch rest ihc ihr =>
     simp only [walkForest]
     split
-    · exact St.le_trans (processFiles_mono _ _ _ _ _) (St.le_trans (ihc _ _ _ _) (ihr _ _ _ _))
+    · exact St.le_trans (readGitignores_mono _ _ _ _) (St.le_trans (ihc _ _ _ _) (ihr _ _ _ _))
     · exact ihr _ _ _ _
+
+theorem mem_expandRel {root : Str} {rel : List (Str × Str)} {x : Str} :
+    x ∈ expandRel root rel ↔ ∃ e ∈ rel, covers e.1 root = true ∧ x = osJoin root e.2 := by
+  simp only [expandRel, List.mem_map, List.mem_filter]
+  constructor
+  · rintro ⟨p, ⟨hp, hc⟩, rfl⟩; exact ⟨p, hp, hc, rfl⟩
+  · rintro ⟨p, hp, hc, rfl⟩; exact ⟨p, ⟨hp, hc⟩, rfl⟩
 
 theorem mem_expandRel_mono {root : Str} {r1 r2 : List (Str × Str)} (h : r1 ⊆ r2) {x : Str}
     (hx : x ∈ expandRel root r1) : x ∈ expandRel root r2 := by
-  simp only [expandRel, List.mem_map, List.mem_filter] at *
-  obtain ⟨p, ⟨hp, hpre⟩, rfl⟩ := hx
-  exact ⟨p, ⟨h hp, hpre⟩, rfl⟩
+  rw [mem_expandRel] at *
+  obtain ⟨p, hp, hpre⟩ := hx
+  exact ⟨p, h hp, hpre⟩
 
-/-- a bigger state prunes more: the folder filter is antitone in the state -/
-theorem keepDir_antitone (cfg : Cfg) (root name : Str) {s t : St} (h : s.le t)
-    (hk : keepDir cfg root t name = true) : keepDir cfg root s name = true := by
-  simp only [keepDir, List.all_eq_true] at *
-  intro c hc
-  have := hk c hc
+/-- a bigger state excludes more: every conjunct of the two filters is antitone in the state -/
+theorem conjunct_antitone (cfg : Cfg) (root name : Str) (c : String) {s t : St} (h : s.le t)
+    (hk : conjunct cfg root t name c = true) : conjunct cfg root s name c = true := by
   unfold conjunct at *
   split
   · simp_all only [if_true]
     simp only [Bool.not_eq_true', decide_eq_false_iff_not] at *
-    exact fun hm => this (h.2.1 hm)
+    exact fun hm => hk (h.1 hm)
   · split
     · simp_all only [if_true, if_false]
       simp only [Bool.not_eq_true', decide_eq_false_iff_not] at *
-      exact fun hm => this (mem_expandRel_mono h.2.2 hm)
+      exact fun hm => hk (mem_expandRel_mono h.2 hm)
     · simp_all
+
+theorem keepDir_antitone (cfg : Cfg) (root name : Str) {s t : St} (h : s.le t)
+    (hk : keepDir cfg root t name = true) : keepDir cfg root s name = true := by
+  simp only [keepDir, List.all_eq_true] at *
+  exact fun c hc => conjunct_antitone cfg root name c h (hk c hc)
+
+theorem fileOk_antitone (cfg : Cfg) (root name : Str) {s t : St} (h : s.le t)
+    (hk : fileOk cfg root t name = true) : fileOk cfg root s name = true := by
+  simp only [fileOk, List.all_eq_true] at *
+  exact fun c hc => conjunct_antitone cfg root name c h (hk c hc)
 
 /-! ## what one step yields -/
 
-theorem mem_processFiles (cfg : Cfg) (root : Str) (anc : List (Str × Str)) (st : St) (fs : List FileEnt) (ev : Ev) :
-    ev ∈ (processFiles cfg root anc st fs).1 ↔
-      ∃ f ∈ fs, isPy cfg f.name = true ∧ osJoin root f.name ∉ st.exceptPath ∧
-        ev = ⟨true, osJoin root f.name, anc⟩ := by
-  induction fs generalizing st with
-  | nil => simp [processFiles]
-  | cons f fs ih =>
-    simp only [processFiles, List.mem_append, List.mem_cons, exists_eq_or_imp]
-    rw [ih]
-    have hex : (if f.name = cfg.gitignoreName then
-        ({ st with exceptStr := st.exceptStr ++ (gitignoredPaths cfg root f.content).1,
-                   rel := st.rel ++ (gitignoredPaths cfg root f.content).2 } : St)
-        else st).exceptPath = st.exceptPath := by
-      split <;> rfl
-    simp only [hex]
-    constructor
-    · rintro (h | h)
-      · left
-        split at h
-        · rename_i hc
-          simp only [List.mem_singleton] at h
-          exact ⟨hc.1, hc.2, h⟩
-        · simp at h
-      · right; exact h
-    · rintro (⟨h1, h2, h3⟩ | h)
-      · left
-        rw [if_pos ⟨h1, h2⟩]
-        simp [h3]
-      · right; exact h
+theorem mem_fileEvents (cfg : Cfg) (root : Str) (anc : List Anc) (st : St) (fs : List FileEnt) (ev : Ev) :
+    ev ∈ fileEvents cfg root anc st fs ↔
+      ∃ f ∈ fs, isPy cfg f.name = true ∧ fileOk cfg root st f.name = true ∧
+        ev = ⟨true, osJoin root f.name, f.name, anc⟩ := by
+  simp only [fileEvents, List.mem_map, List.mem_filter, Bool.and_eq_true]
+  constructor
+  · rintro ⟨f, ⟨hf, h1, h2⟩, rfl⟩; exact ⟨f, hf, h1, h2, rfl⟩
+  · rintro ⟨f, hf, h1, h2, rfl⟩; exact ⟨f, ⟨hf, h1, h2⟩, rfl⟩
 
-theorem mem_folderEvents (cfg : Cfg) (root : Str) (anc : List (Str × Str)) (st : St) (F : Forest) (ev : Ev)
+theorem mem_folderEvents (cfg : Cfg) (root : Str) (anc : List Anc) (st : St) (F : Forest) (ev : Ev)
     (h : ev ∈ folderEvents cfg root anc st F) :
-    ∃ name, keepDir cfg root st name = true ∧ ev = ⟨false, osJoin root name, anc ++ [(root, name)]⟩ := by
+    ∃ name files, keepDir cfg root st name = true ∧
+      ev = ⟨false, osJoin root name, name, anc ++ [⟨root, name, files⟩]⟩ := by
   induction F with
   | nil => simp [folderEvents] at h
   | cons name files ch rest _ ihr =>
@@ -165,7 +225,7 @@ theorem mem_folderEvents (cfg : Cfg) (root : Str) (anc : List (Str × Str)) (st 
     split at h
     · rename_i hk
       rcases List.mem_cons.mp h with h | h
-      · exact ⟨name, hk, h⟩
+      · exact ⟨name, files, hk, h⟩
       · exact ihr h
     · exact ihr h
 
@@ -174,15 +234,15 @@ theorem mem_folderEvents (cfg : Cfg) (root : Str) (anc : List (Str × Str)) (st 
 /-- `Reach kd root anc F p a fs c`: the directory with path `p`, files `fs` and sub-directories `c`
 lies in the forest `F` of sub-directories of `root`, and every directory on the way from `root` down
 to it (itself included) passes the filter `kd parentPath name`; `a` is `anc` extended by the
-`(parentPath, name)` pairs on the way. -/
+directories on the way. -/
 inductive Reach (kd : Str → Str → Bool) :
-    Str → List (Str × Str) → Forest → Str → List (Str × Str) → List FileEnt → Forest → Prop
+    Str → List Anc → Forest → Str → List Anc → List FileEnt → Forest → Prop
   | here {root anc name files ch rest} : kd root name = true →
-      Reach kd root anc (.cons name files ch rest) (osJoin root name) (anc ++ [(root, name)]) files ch
+      Reach kd root anc (.cons name files ch rest) (osJoin root name) (anc ++ [⟨root, name, files⟩]) files ch
   | sibling {root anc name files ch rest p a fs c} : Reach kd root anc rest p a fs c →
       Reach kd root anc (.cons name files ch rest) p a fs c
   | down {root anc name files ch rest p a fs c} : kd root name = true →
-      Reach kd (osJoin root name) (anc ++ [(root, name)]) ch p a fs c →
+      Reach kd (osJoin root name) (anc ++ [⟨root, name, files⟩]) ch p a fs c →
       Reach kd root anc (.cons name files ch rest) p a fs c
 
 /-- weaker filter, more reachable -/
@@ -195,7 +255,7 @@ theorem Reach.mono {kd kd' : Str → Str → Bool} (hk : ∀ r n, kd r n = true 
 
 /-- every directory entered on the way passed the filter -/
 theorem Reach.anc_kd {kd : Str → Str → Bool} {root anc F p a fs c} (h : Reach kd root anc F p a fs c) :
-    ∀ x ∈ a, x ∈ anc ∨ kd x.1 x.2 = true := by
+    ∀ x ∈ a, x ∈ anc ∨ kd x.parent x.name = true := by
   induction h with
   | here hkd =>
     intro x hx
@@ -211,7 +271,7 @@ theorem Reach.anc_kd {kd : Str → Str → Bool} {root anc F p a fs c} (h : Reac
       · simp only [List.mem_singleton] at h; subst h; exact .inr hkd
     · exact .inr h
 
-theorem reach_of_folderEvents (cfg : Cfg) (root : Str) (anc : List (Str × Str)) (st : St) (F : Forest) (ev : Ev)
+theorem reach_of_folderEvents (cfg : Cfg) (root : Str) (anc : List Anc) (st : St) (F : Forest) (ev : Ev)
     (h : ev ∈ folderEvents cfg root anc st F) :
     ev.isFile = false ∧ ∃ fs c, Reach (fun r n => keepDir cfg r st n) root anc F ev.path ev.anc fs c := by
   induction F with
@@ -228,10 +288,13 @@ theorem reach_of_folderEvents (cfg : Cfg) (root : Str) (anc : List (Str × Str))
     · obtain ⟨h1, fs, c, h2⟩ := ihr h
       exact ⟨h1, fs, c, .sibling h2⟩
 
-/-- what soundness says about one event, relative to the filter of the state `st0` -/
-def Sound (cfg : Cfg) (st0 : St) (root : Str) (anc : List (Str × Str)) (F : Forest) (ev : Ev) : Prop :=
+/-- what soundness says about one event, relative to the filter of the state `st0`: a file event
+is a `.py/.pyi` file `f` of a reachable directory `p` that passes the file filter of the state
+"`st0` plus the `.gitignore` files of `p`" -/
+def Sound (cfg : Cfg) (st0 : St) (root : Str) (anc : List Anc) (F : Forest) (ev : Ev) : Prop :=
   (ev.isFile = true → ∃ p fs c, Reach (fun r n => keepDir cfg r st0 n) root anc F p ev.anc fs c ∧
-      ∃ f ∈ fs, isPy cfg f.name = true ∧ osJoin p f.name ∉ st0.exceptPath ∧ ev.path = osJoin p f.name) ∧
+      ∃ f ∈ fs, isPy cfg f.name = true ∧ fileOk cfg p (readGitignores cfg p st0 fs) f.name = true ∧
+        ev.path = osJoin p f.name ∧ ev.name = f.name) ∧
   (ev.isFile = false → ∃ fs c, Reach (fun r n => keepDir cfg r st0 n) root anc F ev.path ev.anc fs c)
 
 theorem Sound.sibling {cfg st0 root anc name files ch rest ev} (h : Sound cfg st0 root anc rest ev) :
@@ -243,7 +306,7 @@ theorem Sound.sibling {cfg st0 root anc name files ch rest ev} (h : Sound cfg st
     exact ⟨fs, c, .sibling hr⟩
 
 theorem Sound.down {cfg st0 root anc name files ch rest ev} (hk : keepDir cfg root st0 name = true)
-    (h : Sound cfg st0 (osJoin root name) (anc ++ [(root, name)]) ch ev) :
+    (h : Sound cfg st0 (osJoin root name) (anc ++ [⟨root, name, files⟩]) ch ev) :
     Sound cfg st0 root anc (.cons name files ch rest) ev := by
   refine ⟨fun hf => ?_, fun hf => ?_⟩
   · obtain ⟨p, fs, c, hr, hrest⟩ := h.1 hf
@@ -251,7 +314,7 @@ theorem Sound.down {cfg st0 root anc name files ch rest ev} (hk : keepDir cfg ro
   · obtain ⟨fs, c, hr⟩ := h.2 hf
     exact ⟨fs, c, .down hk hr⟩
 
-theorem walkForest_sound (cfg : Cfg) (st0 : St) (root : Str) (anc : List (Str × Str)) (frozen st : St)
+theorem walkForest_sound (cfg : Cfg) (st0 : St) (root : Str) (anc : List Anc) (frozen st : St)
     (F : Forest) (h0 : st0.le frozen) (h1 : st0.le st) :
     ∀ ev ∈ (walkForest cfg root anc frozen st F).1, Sound cfg st0 root anc F ev := by
   induction F generalizing root anc frozen st with
@@ -262,12 +325,13 @@ theorem walkForest_sound (cfg : Cfg) (st0 : St) (root : Str) (anc : List (Str ×
     split at h
     · rename_i hk
       have hk0 := keepDir_antitone cfg root name h0 hk
-      have hr0 := processFiles_mono cfg (osJoin root name) (anc ++ [(root, name)]) st files
+      have hr0 := readGitignores_mono cfg (osJoin root name) st files
+      have hs0 := readGitignores_le_le cfg (osJoin root name) h1 files
       simp only [List.mem_append] at h
       rcases h with ((h | h) | h) | h
-      · obtain ⟨f, hf, hpy, hex, rfl⟩ := (mem_processFiles _ _ _ _ _ _).mp h
-        refine ⟨fun _ => ⟨_, files, ch, .here hk0, f, hf, hpy, ?_, rfl⟩, fun hc => (by cases hc)⟩
-        rw [h1.1]; exact hex
+      · obtain ⟨f, hf, hpy, hok, rfl⟩ := (mem_fileEvents _ _ _ _ _ _).mp h
+        exact ⟨fun _ => ⟨_, files, ch, .here hk0, f, hf, hpy, fileOk_antitone _ _ _ hs0 hok, rfl, rfl⟩,
+               fun hc => (by cases hc)⟩
       · obtain ⟨hff, fs, c, hr⟩ := reach_of_folderEvents _ _ _ _ _ _ h
         refine ⟨fun hc => (by rw [hff] at hc; cases hc), fun _ => ⟨fs, c, .down hk0 (hr.mono ?_)⟩⟩
         intro r n hkn
@@ -277,48 +341,167 @@ theorem walkForest_sound (cfg : Cfg) (st0 : St) (root : Str) (anc : List (Str ×
         exact St.le_trans h1 (St.le_trans hr0 (walkForest_mono _ _ _ _ _ _))
     · exact (ihr _ _ _ _ h0 h1 ev h).sibling
 
-theorem walkForest_complete (cfg : Cfg) (B : St) {root : Str} {anc : List (Str × Str)} {F : Forest}
-    {p : Str} {a : List (Str × Str)} {fs : List FileEnt} {c : Forest}
+theorem walkForest_complete (cfg : Cfg) (B : St) {root : Str} {anc : List Anc} {F : Forest}
+    {p : Str} {a : List Anc} {fs : List FileEnt} {c : Forest}
     (h : Reach (fun r n => keepDir cfg r B n) root anc F p a fs c) :
     ∀ (frozen st : St), frozen.le B → (walkForest cfg root anc frozen st F).2.le B →
-    ∀ f ∈ fs, isPy cfg f.name = true → osJoin p f.name ∉ st.exceptPath →
-      (⟨true, osJoin p f.name, a⟩ : Ev) ∈ (walkForest cfg root anc frozen st F).1 := by
+    ∀ f ∈ fs, isPy cfg f.name = true → fileOk cfg p B f.name = true →
+      (⟨true, osJoin p f.name, f.name, a⟩ : Ev) ∈ (walkForest cfg root anc frozen st F).1 := by
   induction h with
   | @here root anc name files ch rest hkB =>
-    intro frozen st hf hB f hfm hpy hex
+    intro frozen st hf hB f hfm hpy hok
     have hk := keepDir_antitone cfg root name hf hkB
-    simp only [walkForest, hk, if_true, List.mem_append]
-    exact .inl (.inl (.inl ((mem_processFiles _ _ _ _ _ _).mpr ⟨f, hfm, hpy, hex, rfl⟩)))
+    simp only [walkForest, hk, if_true, List.mem_append] at hB ⊢
+    refine .inl (.inl (.inl ((mem_fileEvents _ _ _ _ _ _).mpr ⟨f, hfm, hpy, ?_, rfl⟩)))
+    refine fileOk_antitone _ _ _ ?_ hok
+    exact St.le_trans (walkForest_mono _ _ _ _ _ _) (St.le_trans (walkForest_mono _ _ _ _ _ _) hB)
   | @sibling root anc name files ch rest p a fs c _ ih =>
-    intro frozen st hf hB f hfm hpy hex
+    intro frozen st hf hB f hfm hpy hok
     simp only [walkForest] at hB ⊢
     split
     · rename_i hk
       simp only [hk, if_true] at hB
       simp only [List.mem_append]
-      refine .inr (ih frozen _ hf hB f hfm hpy ?_)
-      have h1 := processFiles_mono cfg (osJoin root name) (anc ++ [(root, name)]) st files
-      have h2 := walkForest_mono cfg (osJoin root name) (anc ++ [(root, name)])
-        (processFiles cfg (osJoin root name) (anc ++ [(root, name)]) st files).2
-        (processFiles cfg (osJoin root name) (anc ++ [(root, name)]) st files).2 ch
-      rw [← h2.1, ← h1.1]; exact hex
+      exact .inr (ih frozen _ hf hB f hfm hpy hok)
     · rename_i hk
       simp only [hk] at hB
-      exact ih frozen st hf hB f hfm hpy hex
+      exact ih frozen st hf hB f hfm hpy hok
   | @down root anc name files ch rest p a fs c hkB _ ih =>
-    intro frozen st hf hB f hfm hpy hex
+    intro frozen st hf hB f hfm hpy hok
     have hk := keepDir_antitone cfg root name hf hkB
     simp only [walkForest, hk, if_true, List.mem_append] at hB ⊢
-    have h1 := processFiles_mono cfg (osJoin root name) (anc ++ [(root, name)]) st files
     have h3 := walkForest_mono cfg root anc frozen
-      (walkForest cfg (osJoin root name) (anc ++ [(root, name)])
-        (processFiles cfg (osJoin root name) (anc ++ [(root, name)]) st files).2
-        (processFiles cfg (osJoin root name) (anc ++ [(root, name)]) st files).2 ch).2 rest
+      (walkForest cfg (osJoin root name) (anc ++ [⟨root, name, files⟩])
+        (readGitignores cfg (osJoin root name) st files)
+        (readGitignores cfg (osJoin root name) st files) ch).2 rest
     have hr1B := St.le_trans h3 hB
-    have hr0B := St.le_trans (walkForest_mono cfg (osJoin root name) (anc ++ [(root, name)])
-        (processFiles cfg (osJoin root name) (anc ++ [(root, name)]) st files).2
-        (processFiles cfg (osJoin root name) (anc ++ [(root, name)]) st files).2 ch) hr1B
-    refine .inl (.inr (ih _ _ hr0B hr1B f hfm hpy ?_))
-    rw [← h1.1]; exact hex
+    have hr0B := St.le_trans (walkForest_mono cfg (osJoin root name) (anc ++ [⟨root, name, files⟩])
+        (readGitignores cfg (osJoin root name) st files)
+        (readGitignores cfg (osJoin root name) st files) ch) hr1B
+    exact .inl (.inr (ih _ _ hr0B hr1B f hfm hpy hok))
+
+/-! ## the local ("git-like") specification every event satisfies
+
+`Good cfg inh P new ev`: walking down from the directory `P` through the directories `new` to the
+event, where `inh` is the state made of the initial `except_paths` and the `.gitignore` files of
+`P` and of the directories above `P` only — nothing from elsewhere in the tree: every directory on
+the way passes the folder filter of the state inherited at its parent, each directory adds its own
+`.gitignore` files before anything in or below it is tested, and a file passes the file filter. -/
+
+def Good (cfg : Cfg) : St → Str → List Anc → Ev → Prop
+  | inh, P, [], ev => ev.isFile = true ∧ fileOk cfg P inh ev.name = true ∧ ev.path = osJoin P ev.name
+  | inh, P, x :: rest, ev =>
+      x.parent = P ∧ keepDir cfg P inh x.name = true ∧
+      ((rest = [] ∧ ev.isFile = false ∧ ev.path = osJoin P x.name ∧ ev.name = x.name) ∨
+       Good cfg (readGitignores cfg (osJoin P x.name) inh x.files) (osJoin P x.name) rest ev)
+
+theorem Good.nil_iff {cfg : Cfg} {inh : St} {P : Str} {ev : Ev} :
+    Good cfg inh P [] ev ↔
+      (ev.isFile = true ∧ fileOk cfg P inh ev.name = true ∧ ev.path = osJoin P ev.name) := by
+  simp only [Good]
+
+theorem Good.cons_iff {cfg : Cfg} {inh : St} {P : Str} {x : Anc} {rest : List Anc} {ev : Ev} :
+    Good cfg inh P (x :: rest) ev ↔
+      (x.parent = P ∧ keepDir cfg P inh x.name = true ∧
+      ((rest = [] ∧ ev.isFile = false ∧ ev.path = osJoin P x.name ∧ ev.name = x.name) ∨
+       Good cfg (readGitignores cfg (osJoin P x.name) inh x.files) (osJoin P x.name) rest ev)) := by
+  simp only [Good]
+
+theorem Good.antitone {cfg : Cfg} {s t : St} (h : s.le t) {P : Str} {l : List Anc} {ev : Ev}
+    (hg : Good cfg t P l ev) : Good cfg s P l ev := by
+  induction l generalizing s t P with
+  | nil =>
+    simp only [Good] at hg ⊢
+    exact ⟨hg.1, fileOk_antitone _ _ _ h hg.2.1, hg.2.2⟩
+  | cons x rest ih =>
+    simp only [Good] at hg ⊢
+    obtain ⟨h1, h2, h3⟩ := hg
+    refine ⟨h1, keepDir_antitone _ _ _ h h2, ?_⟩
+    rcases h3 with h3 | h3
+    · exact .inl h3
+    · exact .inr (ih (readGitignores_le_le _ _ h _) h3)
+
+theorem walkForest_good (cfg : Cfg) (inh : St) (root : Str) (anc : List Anc) (frozen st : St)
+    (F : Forest) (h0 : inh.le frozen) (h1 : inh.le st) :
+    ∀ ev ∈ (walkForest cfg root anc frozen st F).1, ∃ new, ev.anc = anc ++ new ∧ Good cfg inh root new ev := by
+  induction F generalizing root anc frozen st inh with
+  | nil => intro ev h; simp [walkForest] at h
+  | cons name files ch rest ihc ihr =>
+    intro ev h
+    simp only [walkForest] at h
+    split at h
+    · rename_i hk
+      have hk0 := keepDir_antitone cfg root name h0 hk
+      have hr0 := readGitignores_mono cfg (osJoin root name) st files
+      have hs0 := readGitignores_le_le cfg (osJoin root name) h1 files
+      simp only [List.mem_append] at h
+      rcases h with ((h | h) | h) | h
+      · obtain ⟨f, hf, hpy, hok, rfl⟩ := (mem_fileEvents _ _ _ _ _ _).mp h
+        refine ⟨[⟨root, name, files⟩], rfl, ?_⟩
+        exact Good.cons_iff.mpr ⟨rfl, hk0, .inr (Good.nil_iff.mpr ⟨rfl, fileOk_antitone _ _ _ hs0 hok, rfl⟩)⟩
+      · obtain ⟨n, cf, hkn, rfl⟩ := mem_folderEvents _ _ _ _ _ _ h
+        refine ⟨[⟨root, name, files⟩, ⟨osJoin root name, n, cf⟩], by simp, ?_⟩
+        exact Good.cons_iff.mpr ⟨rfl, hk0, .inr (Good.cons_iff.mpr
+          ⟨rfl, keepDir_antitone _ _ _ hs0 hkn, .inl ⟨rfl, rfl, rfl, rfl⟩⟩)⟩
+      · obtain ⟨new, hnew, hg⟩ := ihc _ _ _ _ _ hs0 hs0 ev h
+        refine ⟨⟨root, name, files⟩ :: new, by simp [hnew], ?_⟩
+        exact Good.cons_iff.mpr ⟨rfl, hk0, .inr hg⟩
+      · exact ihr _ _ _ _ _ h0 (St.le_trans h1 (St.le_trans hr0 (walkForest_mono _ _ _ _ _ _))) ev h
+    · exact ihr _ _ _ _ _ h0 h1 ev h
+
+/-- `Good` for a path that enters the directory `x` somewhere: below `x` everything is `Good` for
+some state that contains `x`'s own `.gitignore` files -/
+theorem Good.split {cfg : Cfg} {inh : St} {P : Str} {pre : List Anc} {x : Anc} {post : List Anc} {ev : Ev}
+    (hg : Good cfg inh P (pre ++ x :: post) ev) :
+    ∃ S, keepDir cfg x.parent S x.name = true ∧ inh.le S ∧
+      ((post = [] ∧ ev.isFile = false) ∨
+        Good cfg (readGitignores cfg (osJoin x.parent x.name) S x.files) (osJoin x.parent x.name) post ev) := by
+  induction pre generalizing inh P with
+  | nil =>
+    simp only [List.nil_append, Good] at hg
+    obtain ⟨h1, h2, h3⟩ := hg
+    subst h1
+    refine ⟨inh, h2, St.le_refl _, ?_⟩
+    rcases h3 with h3 | h3
+    · exact .inl ⟨h3.1, h3.2.1⟩
+    · exact .inr h3
+  | cons y pre ih =>
+    simp only [List.cons_append, Good] at hg
+    obtain ⟨_, _, h3⟩ := hg
+    rcases h3 with h3 | h3
+    · exact absurd h3.1 (by simp)
+    · obtain ⟨S, hS1, hS2, hS3⟩ := ih h3
+      exact ⟨S, hS1, St.le_trans (readGitignores_mono _ _ _ _) hS2, hS3⟩
+
+/-- the parent paths below `D` are `D`, `join(D, n₁)`, `join(join(D, n₁), n₂)`, …: `Chain D l` -/
+def Chain : Str → List Anc → Prop
+  | _, [] => True
+  | D, y :: rest => y.parent = D ∧ Chain (osJoin D y.name) rest
+
+/-- what `Good` gives for every entry on the way: it passed the folder filter of the state at the top,
+and the file passed the file filter of that state, in the directory at the end of the chain -/
+theorem Good.all {cfg : Cfg} {S : St} {D : Str} {post : List Anc} {ev : Ev} (hg : Good cfg S D post ev) :
+    Chain D post ∧ (∀ y ∈ post, keepDir cfg y.parent S y.name = true) ∧
+    (ev.isFile = true → fileOk cfg (post.foldl (fun p y => osJoin p y.name) D) S ev.name = true ∧
+      ev.path = osJoin (post.foldl (fun p y => osJoin p y.name) D) ev.name) := by
+  induction post generalizing S D with
+  | nil =>
+    simp only [Good] at hg
+    exact ⟨trivial, fun y hy => (by cases hy), fun _ => ⟨hg.2.1, hg.2.2⟩⟩
+  | cons x rest ih =>
+    simp only [Good] at hg
+    obtain ⟨h1, h2, h3⟩ := hg
+    rcases h3 with h3 | h3
+    · obtain ⟨hr, hf, _, _⟩ := h3
+      subst hr
+      refine ⟨⟨h1, trivial⟩, fun y hy => ?_, fun hc => (by rw [hf] at hc; cases hc)⟩
+      simp only [List.mem_singleton] at hy
+      subst hy; rw [h1]; exact h2
+    · obtain ⟨i1, i2, i3⟩ := ih (Good.antitone (readGitignores_mono _ _ _ _) h3)
+      refine ⟨⟨h1, i1⟩, fun y hy => ?_, fun hc => ?_⟩
+      · rcases List.mem_cons.mp hy with hy | hy
+        · subst hy; rw [h1]; exact h2
+        · exact i2 y hy
+      · simpa [List.foldl] using i3 hc
 
 end JediModel.Walk
